@@ -12,6 +12,7 @@ import (
 	"fmt"
 	"math/rand"
 	"strings"
+	"time"
 )
 
 func genC12(r *rand.Rand, tier string, idx int) []string {
@@ -123,10 +124,11 @@ func genC12(r *rand.Rand, tier string, idx int) []string {
 
 func init() {
 	register(&Suite{
-		Name: "c12",
-		Rule: "source tries of every root shape (branch, shared-prefix short node, single entry, empty) over pools of 4..17 keys, in memory / committed at collapse levels -1..6 / reloaded (+ further changes); path export of 0..14 requested keys (present and absent, both sides of the threshold of 10); import; 6 mirrored updates / same-value rewrites / deletes (both entry points) of requested keys; non-trivial = at least 2 mutations and a successful import",
-		Gen:  genC12,
-		Run:  runWmpt,
+		Name:        "c12",
+		Rule:        "source tries of every root shape (branch, shared-prefix short node, single entry, empty) over pools of 4..17 keys, in memory / committed at collapse levels -1..6 / reloaded (+ further changes); path export of 0..14 requested keys (present and absent, both sides of the threshold of 10); import; 6 mirrored updates / same-value rewrites / deletes (both entry points) of requested keys; non-trivial = at least 2 mutations and a successful import",
+		Gen:         genC12,
+		Run:         runWmpt,
+		CaseTimeout: 3 * time.Minute, // a stalled machine must not look like a hang; a real hang still fails the case
 		DefaultN: func(tier string) int {
 			if tier == "thorough" {
 				return 60000
